@@ -28,6 +28,7 @@ type tr struct {
 	names map[string]string // Go operator function -> TLA+ operator name
 	iface string            // name of the ArchetypeInterface parameter in scope
 	ops   map[string]int    // module-level operator functions: name -> arity
+	at    map[string]bool   // closure parameters standing for TLA+'s @ (FunctionSubstitution anchors) in scope
 }
 
 type terr struct{ msg string }
@@ -442,6 +443,9 @@ func (t *tr) expr(e ast.Expr) string {
 	case *ast.ParenExpr:
 		return t.expr(x.X)
 	case *ast.Ident:
+		if t.at[x.Name] {
+			return "EAt"
+		}
 		return "EVar " + cq(x.Name)
 	case *ast.SelectorExpr:
 		if p, n, ok := sel(x); ok && p == "tla" && strings.HasPrefix(n, "Module") {
@@ -633,9 +637,13 @@ func (t *tr) tlaCall(c *ast.CallExpr, n string) string {
 					t.fail(el, "FunctionSubstitution record: expected func(anchor tla.Value) tla.Value")
 				}
 				anchor := fl.Type.Params.List[0].Names[0].Name
+				// the closure parameter is TLA+'s @
+				ks := t.exprs(keys)
+				old := t.at[anchor]
+				t.at[anchor] = true
 				body := t.singleReturn(fl.Body)
-				// the anchor is TLA+'s @ : bound by a LET around the value so that the shape stays explicit
-				subs = append(subs, "("+t.exprs(keys)+", ELet "+cq(anchor)+" [] EAt ("+body+"))")
+				t.at[anchor] = old
+				subs = append(subs, "("+ks+", "+body+")")
 			}
 			return "EExcept (" + t.expr(a[0]) + ") " + clist(subs)
 		}
@@ -1044,7 +1052,7 @@ func main() {
 	js := flag.String("json", "", "JSON summary output")
 	namesF := flag.String("names", "", "JSON map Go operator function -> TLA+ operator name")
 	flag.Parse()
-	t := &tr{fset: token.NewFileSet(), names: map[string]string{}, ops: map[string]int{}}
+	t := &tr{fset: token.NewFileSet(), names: map[string]string{}, ops: map[string]int{}, at: map[string]bool{}}
 	defer func() {
 		if r := recover(); r != nil {
 			if e, ok := r.(terr); ok {
